@@ -296,6 +296,10 @@ func lcRun(id int, sc *lcScen, base string) {
 	srcName := "TRIANGLESOURCE"
 	if sc.Producer == "erroring" {
 		srcName = "ERRORINGSOURCE"
+		// ErroringSource is a test-only source without row/column codes (its WriteControl START would index an empty
+		// table); give it the one code a real one-channel source has, so that write requests can be part of a history
+		// in which the source ends by itself
+		ctl.erroring.rowColCodes = []RowColCode{rcCode(0, 0, 1, 1)}
 	} else {
 		if err := ctl.triangle.Configure(&TriangleSourceConfig{Nchan: 2, SampleRate: 20000, Min: 100, Max: 400}); err != nil {
 			panic(err)
@@ -450,7 +454,9 @@ func lcRun(id int, sc *lcScen, base string) {
 			}
 		case "CoreTakeReq":
 			release("core", "CoreLoop.select")
-			release(a.C, "RLIA.checked")
+			if lcParkedAt(a.C) == "RLIA.checked" { // otherwise it is already waiting in runLaterIfActive's select (ReqPoll)
+				release(a.C, "RLIA.checked")
+			}
 			expect("core", "CoreLoop.request")
 			expect(a.C, "RLIA.sent")
 		case "CoreSendResult":
@@ -500,8 +506,17 @@ func lcRun(id int, sc *lcScen, base string) {
 				expect(a.C, "return")
 			}
 		case "ReqGiveUp":
-			release(a.C, "RLIA.checked")
+			if lcParkedAt(a.C) == "RLIA.checked" {
+				release(a.C, "RLIA.checked")
+			}
 			expect(a.C, "return")
+		case "ReqPoll":
+			// the client enters its wait loop while the source is alive (the core stands at a gate, so it cannot take
+			// the request) and stays there for longer than one poll period of runLaterIfActive (50 ms)
+			if lcParkedAt(a.C) == "RLIA.checked" {
+				release(a.C, "RLIA.checked")
+			}
+			time.Sleep(130 * time.Millisecond)
 		default:
 			problem = "unknown action " + a.A
 		}
@@ -582,6 +597,8 @@ wait:
 			break wait
 		}
 	}
+	// is data writing still on, now that every Stop call has returned?
+	writingLeft := len(pending) == 0 && finalStopDone && ds.WritingIsActive()
 	// restart probe: after everything has returned the same source object must start and stop again
 	probe := "skipped"
 	if len(pending) == 0 && finalStopDone {
@@ -608,7 +625,7 @@ wait:
 		rets[k] = v
 	}
 	vEmit(vmap{"ev": "End", "hangs": hangs, "finalstop": finalStopDone, "finalstoperr": finalStopErr, "st": lcStateName(ds.GetState()),
-		"flag": ctl.isSourceActive, "probe": probe, "census": vmap{"core": cz["core"] - census0["core"], "producer": cz["producer"] - census0["producer"]},
+		"flag": ctl.isSourceActive, "probe": probe, "writing": writingLeft, "census": vmap{"core": cz["core"] - census0["core"], "producer": cz["producer"] - census0["producer"]},
 		"returns": rets, "ndone": nDone})
 	lc.mu.Lock()
 	lc.active = false
